@@ -598,4 +598,20 @@ theorem swap_takes_over (s : St) (sc : Sc) (slot : Slot) (r : RefSt) (hg : getRe
   · unfold swap; rw [hg]
   · rw [f1]; exact lookup_insert_self _ _ _
 
+/-- **C07 (F23)** a replacement connection that reports IDLE before it was ever READY (its connection
+    attempt failed) is told to connect again, and nothing else happens: the refresh stays in progress
+    and can still complete -/
+theorem replacement_idle_reconnects (s : St) (sc : Sc) (slot : Slot) (order : List Slot)
+    (h : lookup s.refreshingMap sc = some slot) :
+    opScs s sc .idle order = (s, [.connect sc, .res "ok"]) := by
+  simp [opScs, scsPrologue, h]
+
+/-- … and any other report short of READY for a replacement changes nothing at all -/
+theorem replacement_not_ready_ignored (s : St) (sc : Sc) (slot : Slot) (st : CState) (order : List Slot)
+    (h : lookup s.refreshingMap sc = some slot) (hr : st ≠ .ready) (hi : st ≠ .idle) :
+    opScs s sc st order = (s, [.res "ok"]) := by
+  have h1 : (st != .ready) = true := by simpa using hr
+  have h2 : (st == .idle) = false := by simpa using hi
+  simp [opScs, scsPrologue, h, h1, h2]
+
 end GcpVerif.Pool
